@@ -107,7 +107,7 @@ def mtOp (t : Array String) : String :=
   let T := parseHex ((kw t "threads").getD "0")
   let I := parseHex ((kw t "iters").getD "0")
   let n := parseHex ((kw t "n").getD "0")
-  if T < 1 ∨ T > 64 ∨ n < 1 ∨ n > 100000 then "bad-op" else s!"calls={hex (T * I)} bad=0"
+  if T < 1 ∨ T > 64 ∨ n < 1 ∨ n > 400000 then "bad-op" else s!"calls={hex (T * I)} bad=0"
 
 def oomOp (t : Array String) : Option String :=
   match argS t 0 with
